@@ -24,11 +24,17 @@ Definition write_file (del : list nat) (items : list item) : list str := write_f
 
 (* ---- include files: lines carry a mark "came from an include file" *)
 Definition cPlusChar : ascii := "+"%char.
-Definition include_name (l : str) : option str := match l with c :: name => if Ascii.eqb c cPlusChar then Some name else None | [] => None end.
+(* str.isspace() on ASCII *)
+Definition is_py_space (c : ascii) : bool := let n := nat_of_ascii c in Nat.eqb n 32 || ((9 <=? n)%nat && (n <=? 13)%nat) || ((28 <=? n)%nat && (n <=? 31)%nat).
+Fixpoint lstrip_with (p : ascii -> bool) (s : str) : str := match s with c :: r => if p c then lstrip_with p r else s | [] => [] end.
+Definition strip_ws (s : str) : str := rev (lstrip_with is_py_space (rev (lstrip_with is_py_space s))).
+(* _read_included_file (as repaired): line.lstrip('+').strip() is the file name - '++name' reads the same file as '+name', blanks around the
+   name do not belong to it *)
+Definition include_name (l : str) : option str :=
+  match l with c :: _ => if Ascii.eqb c cPlusChar then Some (strip_ws (lstrip_with (fun x => Ascii.eqb x cPlusChar) l)) else None | [] => None end.
 
 (* _read_included_file (as repaired by 93016d2): an END instruction ends the include file - the line itself and everything behind it
    is not part of the model.  included_line[:4].upper().rstrip() == 'END' *)
-Definition is_py_space (c : ascii) : bool := let n := nat_of_ascii c in Nat.eqb n 32 || ((9 <=? n)%nat && (n <=? 13)%nat) || ((28 <=? n)%nat && (n <=? 31)%nat).
 Definition is_end_line (l : str) : bool :=
   match upper (firstn 4 l) with
   | [e; n; d] => Ascii.eqb e "E"%char && Ascii.eqb n "N"%char && Ascii.eqb d "D"%char
